@@ -727,6 +727,10 @@ func main() {
 		w.Flush()
 		f.Close()
 		os.RemoveAll(dir)
+	case "mcrew-config":
+		mcrewConfig(os.Args[2])
+	case "mcrew-encode":
+		mcrewEncode(os.Args[2], os.Args[3])
 	case "stdio-replay":
 		in, err := os.Open(os.Args[2])
 		check(err)
